@@ -1391,7 +1391,9 @@ func (c *Conn) readAndProcessDatagram(ctx context.Context) (datagramProcessingSu
 
 	pkts, err := c.unpackDatagram(b[:i])
 	if err != nil {
-		return datagramProcessingSummary{}, err
+		// A datagram that cannot be split into records is discarded silently
+		// [RFC6347 Section-4.1.2.7], whatever made the framing fail.
+		return datagramProcessingSummary{}, fmt.Errorf("%w: %w", recordlayer.ErrInvalidPacketLength, err)
 	}
 
 	var summary datagramProcessingSummary
@@ -2238,6 +2240,12 @@ func (c *Conn) handleIncomingPacket(
 
 	r := &recordlayer.RecordLayer{}
 	if err := r.Unmarshal(prepared.buf); err != nil {
+		if prepared.header.Epoch == 0 && errors.Is(err, dtlserrors.ErrInvalidContentType) {
+			// An unprotected record of no known content type is not a DTLS record:
+			// discard it silently [RFC6347 Section-4.1.2.7].
+			return packetOutcome{}, nil
+		}
+
 		return packetOutcome{
 			responseAlert: &alert.Alert{Level: alert.Fatal, Description: alert.DecodeError},
 		}, err
